@@ -58,11 +58,14 @@ def main():
     try:
         driver.gen_cfg(tmp, registry.CFGS[unit.get("cfg", "prod")])
         exe = os.path.join(tmp, "replay.bin")
-        srcs = [os.path.join(VERIF, spec["c"])] + [os.path.join(REPO, s) for s in spec.get("link", [])]
+        import glob
+        srcs = [os.path.join(VERIF, spec["c"])]
+        for s_ in spec.get("link", []):
+            srcs += sorted(glob.glob(os.path.join(REPO, s_)))
         cmd = ["gcc", "-std=gnu99", "-g", "-O1", "-fsanitize=address,undefined", "-fno-sanitize-recover=undefined",
                "-DVERIF_NATIVE", "-D_GNU_SOURCE", "-I", tmp, "-I", os.path.join(REPO, "src"), "-I", os.path.join(REPO, "src", "linux"),
                "-I", os.path.join(VERIF, "contracts"), "-I", os.path.join(VERIF, "stubs"), "-I", VERIF] + \
-              ["-D" + d for d in unit.get("defines", [])] + srcs + ["-o", exe] + spec.get("libs", [])
+              ["-D" + d for d in unit.get("defines", [])] + srcs + ["-o", exe] + [x.replace("{REPO}", REPO) for x in spec.get("libs", [])]
         p = subprocess.run(cmd, stdout=subprocess.PIPE, stderr=subprocess.STDOUT)
         if p.returncode != 0:
             print("REPLAY-BUILD-FAILED\n" + p.stdout.decode("utf-8", "replace")[-3000:])
